@@ -82,6 +82,9 @@ func (fr *frame) get(key ssa.Value) value {
 		}
 		// lazily allocate globals of packages whose init is not run
 		cell := zero(mustDeref(key.Type()))
+		if s := sentinelError(fr.i, key); s != nil {
+			cell = s
+		}
 		fr.i.globals[key] = &cell
 		return &cell
 	}
@@ -89,6 +92,40 @@ func (fr *frame) get(key ssa.Value) value {
 		return r
 	}
 	panic(engineErr{fmt.Sprintf("get: no value for %T: %v", key, key.Name())})
+}
+
+// sentinelError: package-level error variables of packages whose initialisers
+// are not run (`var ErrX = errors.New(...)`, io.EOF) are distinct non-nil
+// error values, as the standard library's convention has it.
+var sentinelText = map[string]string{
+	"net/http.ErrAbortHandler": "net/http: abort Handler",
+	"io.EOF":                   "EOF",
+	"io.ErrUnexpectedEOF":      "unexpected EOF",
+	"net/http.ErrBodyNotAllowed": "http: request method or response status code does not allow body",
+	"net/http.ErrHandlerTimeout": "http: Handler timeout",
+	"net/http.ErrNoCookie":       "http: named cookie not present",
+	"net/http.ErrServerClosed":   "http: Server closed",
+	"net/http.ErrMissingFile":    "http: no such file",
+	"net/http.ErrNotSupported":   "feature not supported",
+}
+
+func sentinelError(i *interpreter, g *ssa.Global) value {
+	if g.Pkg == nil || strings.HasPrefix(g.Pkg.Pkg.Path(), ruxPath) {
+		return nil
+	}
+	t := mustDeref(g.Type())
+	if n, ok := t.(*types.Named); !ok || n.Obj().Name() != "error" || n.Obj().Pkg() != nil {
+		return nil
+	}
+	if !strings.HasPrefix(g.Name(), "Err") && g.Name() != "EOF" {
+		return nil
+	}
+	full := g.Pkg.Pkg.Path() + "." + g.Name()
+	msg, ok := sentinelText[full]
+	if !ok {
+		msg = full
+	}
+	return i.mkError(msg)
 }
 
 // control panics must never be intercepted by target defers.
